@@ -188,5 +188,37 @@ pub fn dbgerr(ws: &[&str]) -> String {
             }
         }
     }
+    // the errors the library makes up itself at the end of a device-flow poll (deadline passed; access denied), blocking and
+    // future-based, from a response holding the device code and the user code
+    let details: Result<StandardDeviceAuthorizationResponse, _> = serde_json::from_value(serde_json::json!({
+        "device_code": secs[2], "user_code": secs[3], "verification_uri": "https://v/", "verification_uri_complete": format!("https://v/?c={}", secs[1].replace(|c: char| !c.is_ascii_alphanumeric(), "")),
+        "expires_in": 10, "interval": 0}));
+    if let Ok(details) = details {
+        for reply in [&b"{\"error\":\"authorization_pending\"}"[..], &b"{\"error\":\"access_denied\"}"[..]] {
+            let http = move |_r: HttpRequest| -> Result<HttpResponse, crate::kinds::FakeError> {
+                Ok(http::Response::builder().status(400).header("content-type", "application/json").body(reply.to_vec()).unwrap())
+            };
+            let n = std::sync::atomic::AtomicI64::new(0);
+            let clock = || chrono::DateTime::<chrono::Utc>::from_timestamp(1_700_000_000 + 6 * n.fetch_add(1, std::sync::atomic::Ordering::SeqCst), 0).unwrap();
+            let r1 = client.exchange_device_access_token(&details).set_time_fn(clock).request(&http, |_d| {}, None);
+            let n2 = std::sync::atomic::AtomicI64::new(0);
+            let clock2 = || chrono::DateTime::<chrono::Utc>::from_timestamp(1_700_000_000 + 6 * n2.fetch_add(1, std::sync::atomic::Ordering::SeqCst), 0).unwrap();
+            let ahttp = |r: HttpRequest| std::future::ready(http(r));
+            let r2 = crate::exec::block_on(client.exchange_device_access_token(&details).set_time_fn(clock2).request_async(&ahttp, |_d| std::future::ready(()), None));
+            for r in [&r1, &r2] {
+                if ws[0] == "1" {
+                    out.push_str(&format!("{:#?}\n", r));
+                } else {
+                    out.push_str(&format!("{:?}\n", r));
+                }
+                if let Err(e) = r {
+                    out.push_str(&format!("{}\n", e));
+                    if let RequestTokenError::ServerResponse(se) = e {
+                        out.push_str(&format!("{} | {:?} | {:?}\n", se, se.error_description(), se.error_uri()));
+                    }
+                }
+            }
+        }
+    }
     tok_bytes(out.as_bytes())
 }
